@@ -10,3 +10,4 @@ import PqVerif.Props.C07
 import PqVerif.Props.C14
 import PqVerif.Props.C11
 import PqVerif.Props.C04
+import PqVerif.Props.C16
